@@ -37,7 +37,7 @@ def case_term(c):
 
 def describe(c):
     return dict(publisher=PK[c['pubkind']], publisher_behaviour=PB[c['pub']], middlewares=c['mws'], handler_pre_settle=PRE[c['pre']],
-                handler_outcome=['returns', 'fails with', 'panics'][c['outkind']], handler_outputs=c['outs'], panic_value=['string', 'error', 'nil'][c['panicv']],
+                handler_outcome=['returns', 'fails with', 'panics'][c['outkind']], handler_outputs=c['outs'], value=(['string', 'error', 'nil', '-'][c['panicv']] if c['outkind'] == 2 else ['plain error', 'wrapped context.Canceled, message ctx alive', 'context.Canceled, message ctx cancelled', 'context.DeadlineExceeded, message ctx expired'][c['panicv']]),
                 in_flight=c['flight'], observed_trace=c['trace'], final=ST[c['final']])
 
 def run(ctx):
@@ -53,6 +53,9 @@ def run(ctx):
             res.count('publisher=%s' % PK[c['pubkind']])
             res.count('outcome=%s' % ['ret', 'fail', 'panic'][c['outkind']])
             res.count('in_flight=%d' % c['flight'])
+            if any(e[0] == 'not-run' for e in c['trace']):
+                res.evaluations -= 1
+                continue
             bad = [e for e in c['trace'] if event_term(e) is None]
             if bad:
                 res.violations.append(dict(signature='C02/' + bad[0][0], what='unexpected observation %s (e.g. Publish called with an empty batch, message not taken)' % bad[0][0], case=describe(c)))
@@ -75,7 +78,7 @@ def run(ctx):
         if rnd == 0 and good:
             res.sample(describe(good[5])); res.sample(describe(good[len(good) // 2]))
     res.extra['exhaustive'] = True
-    res.rule = ('the full matrix handler outcome {returns 0..3 messages incl. the consumed object itself, fails with/without messages, panics with string/error/nil} '
+    res.rule = ('the full matrix handler outcome {returns 0..3 messages incl. the consumed object itself, fails with/without messages with a plain error / context.Canceled / DeadlineExceeded while the message context is alive or dead, panics with string/error/nil} '
                 'x pre-settle {none, Ack, Nack} x publisher behaviour {accept, error, panic} x handler kind {publisher, AddNoPublisherHandler, nil publisher} '
                 'x middleware prefix {none, pass, pass+pass, append, pass+append, append+pass}, run through a real Router with 1..8 messages in flight; '
                 'non-trivial = anything but a plain successful handler without outputs; distinct by the script.')
